@@ -1361,12 +1361,28 @@ class Converter:
                 )
             onnx_cond_var = current_scope[cond_while].value
 
-        cond_out = self._emit1(
-            [self._generate_unique_name("cond_out")],
-            values.Op(self.default_opset, operator_name),
-            [condition_name or onnx_cond_var],
-            [],
-        )
+        if condition_name is not None and cond_while is not None:
+            # 'while <condition>:' with a trailing 'if <stop>: break': the next iteration runs
+            # only if the (recomputed) loop condition holds and the break is not taken.
+            not_stop = self._emit1(
+                [self._generate_unique_name("not_break")],
+                values.Op(self.default_opset, "Not"),
+                [condition_name],
+                [],
+            )
+            cond_out = self._emit1(
+                [self._generate_unique_name("cond_out")],
+                values.Op(self.default_opset, "And"),
+                [onnx_cond_var, not_stop],
+                [],
+            )
+        else:
+            cond_out = self._emit1(
+                [self._generate_unique_name("cond_out")],
+                values.Op(self.default_opset, operator_name),
+                [condition_name or onnx_cond_var],
+                [],
+            )
         self._current_fn.outputs.append(cond_out)
 
         for pv in loop_state_vars:
